@@ -405,6 +405,10 @@ func (e *evaluator) expr(x ast.Expr) evVal {
 				return evVal{k: evStr, s: strings.Join(parts, sep.s)}
 			}
 		}
+		// a package-level function or a method of this package with parameters of basic types: bind and evaluate
+		if v, ok := e.callLocal(n); ok {
+			return v
+		}
 		// another parameterless method on an integer-typed value: x.M()
 		if se, ok := n.Fun.(*ast.SelectorExpr); ok && len(n.Args) == 0 {
 			if sel, ok := e.p.info.Selections[se]; ok && sel.Kind() == types.MethodVal {
@@ -784,4 +788,57 @@ func (p *pkgInfo) evalBoolRanges(fd *ast.FuncDecl, lo, hi int64) (runs [][2]int6
 		}()
 	}
 	return runs, why
+}
+
+// callLocal evaluates a call of a function or method declared in this package (any number of parameters and a
+// single result), binding receiver and parameters to the evaluated arguments.
+func (e *evaluator) callLocal(n *ast.CallExpr) (evVal, bool) {
+	if e.depth >= 8 {
+		return evVal{}, false
+	}
+	var fn *types.Func
+	var recvExpr ast.Expr
+	switch f := n.Fun.(type) {
+	case *ast.Ident:
+		fn, _ = e.p.info.Uses[f].(*types.Func)
+	case *ast.SelectorExpr:
+		if sel, ok := e.p.info.Selections[f]; ok && sel.Kind() == types.MethodVal {
+			fn, _ = sel.Obj().(*types.Func)
+			recvExpr = f.X
+		}
+	}
+	if fn == nil || fn.Pkg() != e.p.pkg {
+		return evVal{}, false
+	}
+	fd := e.p.declOfFunc(fn)
+	if fd == nil || fd.Body == nil || fd.Type.Results == nil || len(fd.Type.Results.List) != 1 {
+		return evVal{}, false
+	}
+	sub := &evaluator{p: e.p, locals: map[types.Object]evVal{}, depth: e.depth + 1}
+	if recvExpr != nil {
+		if fd.Recv == nil || len(fd.Recv.List) != 1 || len(fd.Recv.List[0].Names) != 1 {
+			return evVal{}, false
+		}
+		sub.locals[e.p.info.Defs[fd.Recv.List[0].Names[0]]] = e.expr(recvExpr)
+	}
+	var params []*ast.Ident
+	if fd.Type.Params != nil {
+		for _, fl := range fd.Type.Params.List {
+			params = append(params, fl.Names...)
+		}
+	}
+	if len(params) != len(n.Args) || n.Ellipsis.IsValid() {
+		return evVal{}, false
+	}
+	if recvExpr != nil && len(params) == 0 {
+		return evVal{}, false // the parameterless-method path below handles it
+	}
+	for i, id := range params {
+		sub.locals[e.p.info.Defs[id]] = e.expr(n.Args[i])
+	}
+	r, ok := sub.block(fd.Body.List)
+	if !ok {
+		e.bad("callee %s does not return", fn.Name())
+	}
+	return r, true
 }
